@@ -41,6 +41,7 @@ type Case struct {
 	Tpl      string   `json:"tpl"`            // template under test (for funcs: the call site)
 	Ref      string   `json:"ref,omitempty"`  // reference template (lifted / inlined)
 	File     string   `json:"file,omitempty"` // funcs file text
+	Files    []string `json:"files,omitempty"` // cli: the same definitions spread over several funcs files (File is their concatenation)
 	Ctxs     []Ctx    `json:"ctxs,omitempty"`
 	RefCtxs  []Ctx    `json:"ref_ctxs,omitempty"` // contexts of the reference (lift); default Ctxs
 	Stateful bool     `json:"stateful,omitempty"` // uses a helper documented to cache (time format detection)
